@@ -73,7 +73,7 @@ def ckey_sym_equal(t1, t2):
 
 class C04(Check):
     id = 'C04'
-    crosshair = ['c04_insert_keeps_sorted']      # thorough tier: the same property as a PEP-316 contract analysed by CrossHair (xh/contracts.py)
+    crosshair = ['c04_insert_keeps_sorted', 'c04_trims_select_designated']      # thorough tier: the same property as a PEP-316 contract analysed by CrossHair (xh/contracts.py)
     title = 'Sequence operations on a track select exactly the designated observations'
     functions = ['Track.sort', 'Track.insertObs', 'Track.__getInsertionIndex', 'Track.extract', 'Track.extractSpanTime', 'Track.__add__', 'Track.__mod__',
                  'Track.__gt__', 'Track.__lt__', 'Track.removeObsList', 'ObsTime.__lt__/__gt__/__le__']
